@@ -1,6 +1,6 @@
 """C06 correspondence: length / area / volume of the implementation (floats) vs exact rational measures
 (shoelace / determinant formulas) and vs the Lean model's rational numerators."""
-import random, math, itertools
+import random, math, copy, itertools
 from fractions import Fraction as F
 from .. import core, gen, admit, exact as E
 from ..gen import Gen, tok
@@ -42,8 +42,23 @@ def measure_polygon(impl, Pyramid, G, cyc, D):
     return (D, apex, obs)
 
 
-def measure_body(impl, G, D):
+def measure_body(impl, G, D, sib):
     R = G.R
+    if sib:
+        # the body shares its INPUT faces with a sibling built from the very same polygon objects, and a copy of it is moved twice
+        # (the first move returns an object q): the sibling and the copy are then moved far away -- the body and q own their data
+        faces = tuple(impl.ConvexPolygon(tuple(impl.Pt(p) for p in f)) for f in D[1])
+        o = impl.ConvexPolyhedron(faces)
+        sibling = impl.ConvexPolyhedron(faces)
+        sibling.move(impl.Vc((F(7), F(-5), F(9))))
+        for f in faces:
+            f.move(impl.Vc((F(-6), F(8), F(5))))
+        c_ = copy.deepcopy(o)
+        q = c_.move(impl.Vc((F(1), F(2), F(-1))))
+        c_.move(impl.Vc((F(9), F(-7), F(6))))
+        obs = dict(length=impl.call(o.length), area=impl.call(o.area), volume=impl.call(o.volume), volume_fn=impl.call(impl.volume, o),
+                   volume_ret=impl.call(q.volume), area_ret=impl.call(q.area), sibling=True)
+        return (D, None, obs)
     o = impl.build(D)
     if R.random() < 0.25:
         mv = tuple(F(R.randint(-9, 9)) for _ in range(3))
@@ -76,10 +91,11 @@ def work(args):
                 t = tuple(F(R.choice([-6, -5, 4, 5, 6])) if R.random() < 0.7 else F(0) for _ in range(3))
                 faces = [[E.add(p, t) for p in f] for f in faces]
             D = G.shuffled_body(faces)       # shuffles vertex order of each face (random orientation) and the face order
+            sib = R.random() < 0.3
             try:
-                out.append(measure_body(impl, G, D))
+                out.append(measure_body(impl, G, D, sib))
             except Exception as e:
-                out.append((D, None, dict(raised=(type(e).__name__, str(e)[:120]))))
+                out.append((D, None, dict(raised=(type(e).__name__, str(e)[:120]), sibling=sib)))
     return out
 
 
@@ -107,7 +123,7 @@ def run(ctx, scale=1):
                 ctx.stats['rejected-by-admission: ' + why] += 1
                 continue
             ctx.stats['DISAGREE'] += 1
-            ctx.violation(key, '%s: constructing / measuring this valid shape raises %s' % (tok(D)[:300], obs['raised']), dict(d=gen.jsonable(D), apex=None, rev=False))
+            ctx.violation(key, '%s: constructing / measuring this valid shape raises %s' % (tok(D)[:300], obs['raised']), dict(d=gen.jsonable(D), apex=None, rev=False, sibling=bool(obs.get('sibling'))))
             continue
         if D[0] == 'G':
             lens, a4 = E.measures(D)
@@ -136,11 +152,12 @@ def run(ctx, scale=1):
                 raise RuntimeError('model volume %s differs from the exact hull volume %s: %s' % (t[2], vol, key))
             ctx.dist['polyhedron %d vertices %d faces' % (len(E.vertices_of(D)), len(D[1]))] += 1
             refs = dict(length=sum(math.sqrt(float(x)) for x in lens), area=sum(math.sqrt(float(a)) / 2 for a in areas), volume=float(vol), volume_fn=float(vol))
+            refs.update(volume_ret=float(vol), area_ret=refs['area'])      # the object returned by move() of a copy, after the copy moved on
         if obs.get('rev'):
             ctx.dist['polygon built with reverse=True'] += 1
         for k, ref in refs.items():
             r = obs.get(k)
-            if r is None or k == 'rev':
+            if r is None or k in ('rev', 'sibling'):
                 continue
             if r[0] != 'ok':
                 problems.append('%s raises %s' % (k, r[1:]))
@@ -154,9 +171,9 @@ def run(ctx, scale=1):
             ctx.stats['rejected-by-admission: ' + why] += 1
             continue
         ctx.stats['DISAGREE'] += 1
-        ctx.violation(key, '%s: %s' % (tok(D)[:300], '; '.join(problems[:4])), dict(d=gen.jsonable(D), apex=gen.jsonable(apex) if apex else None, rev=bool(obs.get('rev'))))
+        ctx.violation(key, '%s: %s' % (tok(D)[:300], '; '.join(problems[:4])), dict(d=gen.jsonable(D), apex=gen.jsonable(apex) if apex else None, rev=bool(obs.get('rev')), sibling=bool(obs.get('sibling'))))
     for D, apex, obs in cases[:3]:
-        ctx.sample('%s -> %s' % (tok(D)[:160], {k: v[1:] for k, v in obs.items() if k not in ('seg', 'rev')}))
+        ctx.sample('%s -> %s' % (tok(D)[:160], {k: v[1:] for k, v in obs.items() if k not in ('seg', 'rev', 'sibling', 'raised')}))
 
 
 def search(ctx):
@@ -166,8 +183,29 @@ def search(ctx):
 def replay(ctx, case):
     from .. import impl
     D = gen.from_jsonable(case['case']['d'])
-    o = impl.ConvexPolygon(tuple(impl.Pt(p) for p in D[1]), reverse=True) if case['case'].get('rev') else impl.build(D)
     ok = True
+    if case['case'].get('sibling') and D[0] == 'B':
+        # the scenario of measure_body: siblings built from the same face objects, a copy moved twice
+        try:
+            faces = tuple(impl.ConvexPolygon(tuple(impl.Pt(p) for p in f)) for f in D[1])
+            o = impl.ConvexPolyhedron(faces)
+            sib = impl.ConvexPolyhedron(faces)
+            sib.move(impl.Vc((F(7), F(-5), F(9))))
+            for f in faces:
+                f.move(impl.Vc((F(-6), F(8), F(5))))
+            c_ = copy.deepcopy(o)
+            q = c_.move(impl.Vc((F(1), F(2), F(-1))))
+            c_.move(impl.Vc((F(9), F(-7), F(6))))
+            vol = float(E.measures(D)[2])
+            rq = impl.call(q.volume)
+            print('volume of the object returned by move(), after the receiver moved on:', rq, 'exact', vol)
+            ok = rq[0] == 'ok' and rel_ok(rq[1], vol)
+        except Exception as e:
+            print('raises', type(e).__name__, e)
+            print('VIOLATION property=C06')
+            return 1
+    else:
+        o = impl.ConvexPolygon(tuple(impl.Pt(p) for p in D[1]), reverse=True) if case['case'].get('rev') else impl.build(D)
     if D[0] == 'G':
         lens, a4 = E.measures(D)
         refs = dict(length=sum(math.sqrt(float(x)) for x in lens), area=math.sqrt(float(a4)) / 2)
